@@ -1039,9 +1039,10 @@ _orig_unit_start = _ServiceUnit.start
 def _observed_unit_start(self, *args, **kwargs):
     svc = self.service()
     h = CURRENT["h"]
-    if svc is not None and h is not None:
-        # started units are kept (a started unit is never started again, keeping it changes nothing);
-        # whether it still is the unit its service carries is looked at when the run is judged
+    if svc is not None and h is not None and sum(1 for k in type(svc).__mro__ if k is not object and "__new__" in k.__dict__) > 1:
+        # only instances of classes decorated more than once get several units; for those the started
+        # unit is kept, and whether it still is the unit its service carries is looked at when the run
+        # is judged.  Nothing is kept for other services: a reference would keep them from being collected
         h.started_units.append((svc, self))
     return _orig_unit_start(self, *args, **kwargs)
 
